@@ -14,6 +14,7 @@ import GenlmModel.Model.FsmWfsa
 import GenlmModel.Model.Earley
 import GenlmModel.Model.Compose
 import GenlmModel.Model.Cert
+import GenlmModel.Model.Tzeng
 import GenlmModel.Model.Linear
 import GenlmModel.Model.Tarjan
 import GenlmModel.Generated.Semiring
@@ -494,6 +495,71 @@ def opUcyclePred (j : Json) : E Json := do
     ("scc_ok", .bool (sccCheck g g.arcs bl)), ("scc_rules_ok", .bool (sccCheck g (unaryEdges G) bl)),
     ("arcs_complete", .bool (unaryArcsComplete G))])
 
+def mautToJson (A : MAut Sx K) : Json :=
+  let vj (v : List K) : Json := .arr (v.map Wt.toJson).toArray
+  Json.mkObj [("dim", .num ⟨A.dim, 0⟩), ("start", vj A.start), ("stop", vj A.stop),
+    ("arcs", .arr (A.arcs.map fun p => Json.arr #[sxToJson p.1, .arr (p.2.map vj).toArray]).toArray)]
+
+variable [DecidableEq K] [Sub K] [Div K] in
+/-- {"op":"tzeng_equiv","a":maut,"b":maut,"alphabet":[sym…]?,"fuel":n?,"words":[[…]…]?} → the VERIFIED model of
+`Simple.counterexample` (`tzSearch`, `Model/Tzeng.lean`) run with the alphabet iterated in the given order (default
+`A.diffSyms B`, i.e. `counterexampleQ`) and at most `fuel` pops of the work list (default `A.dim + B.dim`, always
+enough: `tzSearch_terminates`):
+{"outcome":"none"} (equivalent: `tzSearch_equiv_sound`, needs `a_wf`, `b_wf`, `alphabet_complete`) |
+{"outcome":"some","word":[…],"va":…,"vb":…} (`tzSearch_sound`: the weights of that word, and they differ) |
+{"outcome":"out_of_fuel"}; plus the exact weights `wa`, `wb` of the listed words (`MAut.weight`) -/
+def opTzengEquiv (j : Json) : E Json := do
+  let A : MAut Sx K ← mautOfJson (← getField j "a")
+  let B : MAut Sx K ← mautOfJson (← getField j "b")
+  let al : List Sx ← match j.getObjVal? "alphabet" with
+    | .ok v => sxList v
+    | _ => pure (A.diffSyms B)
+  let fuel ← optNat j "fuel" (A.dim + B.dim)
+  let complete : Bool := (A.diffSyms B).all fun a => al.contains a
+  let res : List (String × Json) := match tzSearch al A B fuel with
+    | none => [("outcome", Json.str "out_of_fuel")]
+    | some none => [("outcome", Json.str "none")]
+    | some (some (w, va, vb)) =>
+      [("outcome", Json.str "some"), ("word", Json.arr (w.map sxToJson).toArray),
+       ("va", Wt.toJson va), ("vb", Wt.toJson vb)]
+  let ws : List (List Sx) ← match j.getObjVal? "words" with
+    | .ok jw => do (← getArr jw).mapM sxList
+    | _ => pure []
+  let head : List (String × Json) := [("a_wf", Json.bool A.wf), ("b_wf", Json.bool B.wf),
+    ("alphabet_complete", Json.bool complete), ("alphabet", Json.arr (al.map sxToJson).toArray),
+    ("fuel", Json.num ⟨fuel, 0⟩), ("fuel_sufficient", Json.bool (decide (A.dim + B.dim ≤ fuel)))]
+  let tail : List (String × Json) := [("wa", Json.arr (ws.map fun w => Wt.toJson (A.weight w)).toArray),
+    ("wb", Json.arr (ws.map fun w => Wt.toJson (B.weight w)).toArray)]
+  pure (Json.mkObj (head ++ res ++ tail))
+
+variable [DecidableEq K] [Sub K] [Div K] in
+/-- {"op":"tzeng_min","a":maut,"fuel":n?,"words":[[…]…]?,"full":bool?} → the VERIFIED model of `Simple.min`
+(`minQ`; the matrices are visited in the order of `a.arcs`, the order of the Python dict): {"outcome":"done",
+"dim":d (= Hankel rank = minimum, `minQ_spec`),"fwd_dim":…,"min_weights":[…] (weights of the minimal automaton
+on the words),"wa":[…] (weights of `a`), and with "full" the automaton itself "min" and the rows "fwd_basis" of
+`forward_basis`} or {"outcome":"out_of_fuel"} (impossible for fuel ≥ dim: `minQ_terminates`; default fuel = dim) -/
+def opTzengMin (j : Json) : E Json := do
+  let A : MAut Sx K ← mautOfJson (← getField j "a")
+  let fuel ← optNat j "fuel" A.dim
+  let ws : List (List Sx) ← match j.getObjVal? "words" with
+    | .ok jw => do (← getArr jw).mapM sxList
+    | _ => pure []
+  let full : Bool := optBool j "full"
+  let vj (v : List K) : Json := Json.arr (v.map Wt.toJson).toArray
+  let head : List (String × Json) := [("a_wf", Json.bool A.wf), ("fuel", Json.num ⟨fuel, 0⟩),
+    ("fuel_sufficient", Json.bool (decide (A.dim ≤ fuel))),
+    ("wa", Json.arr (ws.map fun w => Wt.toJson (A.weight w)).toArray)]
+  match minQ A fuel with
+  | none => pure (Json.mkObj (head ++ [("outcome", Json.str "out_of_fuel")]))
+  | some M =>
+    let fb : List (List K) := (forwardBasisQ A fuel).getD []
+    let body : List (String × Json) := [("outcome", Json.str "done"), ("dim", Json.num ⟨M.dim, 0⟩),
+      ("min_wf", Json.bool M.wf), ("fwd_dim", Json.num ⟨fb.length, 0⟩),
+      ("min_weights", Json.arr (ws.map fun w => Wt.toJson (M.weight w)).toArray)]
+    let extra : List (String × Json) :=
+      if full = true then [("min", mautToJson M), ("fwd_basis", Json.arr (fb.map vj).toArray)] else []
+    pure (Json.mkObj (head ++ body ++ extra))
+
 def runOpK [DecidableEq K] [HasInv K] [HasStar K] (op : String) (j : Json) : E Json :=
   match op with
   | "linear" => opLinear (K := K) j
@@ -658,6 +724,8 @@ def runOp (j : Json) : E Json := do
   match R with
   | "Float" | "Real" => (match op with
       | "cert" => opCert (K := Rat) j
+      | "tzeng_equiv" => opTzengEquiv (K := Rat) j
+      | "tzeng_min" => opTzengMin (K := Rat) j
       | _ => runOpK (K := Rat) op j)
   | "F64" => (match op with
       | "wn" => opWn (K := Float) j
